@@ -26,8 +26,17 @@ MSG = EC + 'keyspace::messages::'
 
 
 def check_D0(ctx, facts):
-    body = facts.body(OS + 'check_self_then_insert_to')
     diff = facts.body(OS + 'diff')
+    # the per-key test: the workspace method diff calls with a `&mut Vec` result parameter (found by role, not by name)
+    body = None
+    helper_name = None
+    if diff is not None:
+        for _b, t in diff.calls():
+            n = cname(t)
+            if n and n.startswith('datacake_crdt::') and any('alloc::vec::Vec<' in diff.local_ty(op_local(a)) and diff.local_ty(op_local(a)).startswith('&mut')
+                                                           for a in t['args'] if op_local(a) is not None):
+                helper_name = n
+                body = facts.body(n)
     if body is None or diff is None:
         ctx.bad('C05.D0', 'anchors', '', 'diff / check_self_then_insert_to not found (fail closed)')
         return
@@ -35,7 +44,7 @@ def check_D0(ctx, facts):
     calls = list(body.calls())
     pushes = [(b, t) for b, t in calls if cname(t) == 'alloc::vec::Vec::push']
     gets = {t['dest']['l']: t for b, t in calls if cname(t) in ('alloc::collections::btree::map::BTreeMap::get', 'std::collections::hash::map::HashMap::get')}
-    preds = [(b, t) for b, t in calls if cname(t) == NV + 'is_ts_before_last_observed_event']
+    preds = [(b, t) for b, t in calls if cname(t) and cname(t).startswith(NV) and body.local_ty(t['dest']['l']) == 'bool']
     cmps = comparisons(body)
     n_strict = n_pred = 0
     for i, (pb, pt) in enumerate(pushes):
@@ -83,7 +92,7 @@ def check_D0(ctx, facts):
     dflow = Flow(diff)
     dcalls = list(diff.calls())
     names = [f['name'] for f in facts.adts['datacake_crdt::orswot::OrSWotSet']['variants'][0]['fields']]
-    sites_ = [(b, t) for b, t in dcalls if cname(t) == OS + 'check_self_then_insert_to']
+    sites_ = [(b, t) for b, t in dcalls if cname(t) == helper_name]
     vec_of = {}
     for b, t in sites_:
         vec_roots = [l for l in referent_roots(diff, op_local(t['args'][3]))]
